@@ -394,6 +394,35 @@ def scenario_partition(ctx, repo, rule):
     # pin uses the default interpolation onto the baseline mask and stores both t and vals from the same mask
     st = [s for s in own_nodes(gp.node) if isinstance(s, ast.Assign) and ast.unparse(s.targets[0]).endswith(".t") and "tvec[" in ast.unparse(s.value)]
     ctx.check(bool(st), rule, gp, st[0] if st else gp.node, "baseline time points stored from the same mask", "baseline time points are not stored from the `tvec < S` mask")
+    # ... and the values stored next to them are the parameter interpolated onto exactly those times (same series, same mask)
+    if st:
+        series = ast.unparse(st[0].targets[0])[: -len(".t")]
+        vs = [s for s in own_nodes(gp.node) if isinstance(s, ast.Assign) and ast.unparse(s.targets[0]) == series + ".vals"]
+        okv = len(vs) == 1
+        if okv:
+            v = vs[0].value
+            src = v
+            while isinstance(src, ast.Call) and isinstance(src.func, ast.Attribute) and src.func.attr in ("tolist", "copy"):
+                src = src.func.value
+            if isinstance(src, ast.Name):
+                ds = [d for d in own_nodes(gp.node) if isinstance(d, ast.Assign) and astq.is_name(d.targets[0], src.id)]
+                src = ds[-1].value if len(ds) == 1 else None
+            mask_txt = ast.unparse(st[0].value.func.value) if isinstance(st[0].value, ast.Call) and isinstance(st[0].value.func, ast.Attribute) else ast.unparse(st[0].value)
+            okv = isinstance(src, ast.Call) and isinstance(src.func, ast.Attribute) and src.func.attr == "interpolate" and bool(src.args) and ast.unparse(src.args[0]) == mask_txt
+        ctx.check(okv, rule, gp, vs[0] if vs else st[0], "baseline values = the parameter interpolated onto the pinned times", "the values stored with the pinned baseline times are not `par.interpolate(<the same times>, pop)`: times and values of the series before the scenario start no longer belong together", stmt_text="baseline-vals")
+    # the threshold is the first overwrite year
+    sdef = [d for d in own_nodes(gp.node) if isinstance(d, ast.Assign) and astq.is_name(d.targets[0], S)]
+    oks = len(sdef) == 1 and isinstance(sdef[0].value, ast.Call) and ast.unparse(sdef[0].value.func) in ("min", "np.min", "np.nanmin") and len(sdef[0].value.args) == 1 and ast.unparse(sdef[0].value.args[0]).endswith('["t"]'.replace('"', "'"))
+    ctx.check(oks, rule, gp, sdef[0] if sdef else gp.node, "the threshold is the first overwrite year", "`%s` is not the smallest overwrite year (`%s`): the baseline is pinned up to another year than the one the overwrites start at" % (S, norm(sdef[0])[:70] if sdef else "not found"), stmt_text="threshold-def")
+    # every (t, y) pair of the overwrite is inserted into the same series
+    ins = [c for c in ast.walk(gp.node) if isinstance(c, ast.Call) and isinstance(c.func, ast.Attribute) and c.func.attr == "insert" and st and ast.unparse(c.func.value) == series]
+    oki = len(ins) == 1
+    if oki:
+        lp = enclosing_stmt(ins[0])
+        while lp is not None and not isinstance(lp, ast.For):
+            lp = getattr(lp, "_parent", None)
+        oki = lp is not None and isinstance(lp.iter, ast.Call) and ast.unparse(lp.iter.func) == "zip" and [ast.unparse(a)[-5:] for a in lp.iter.args] == ["['t']", "['y']"] and [ast.unparse(a) for a in ins[0].args] == [ast.unparse(e) for e in lp.target.elts] and not guards_of(enclosing_stmt(ins[0]), stop=lp)
+    ctx.check(oki, rule, gp, enclosing_stmt(ins[0]) if ins else gp.node, "every overwrite pair (t, y) is inserted", "the overwrite values are not inserted pair by pair (`for t, y in zip(overwrite['t'], overwrite['y']): series.insert(t, y)`, unconditionally): some scenario values never reach the parameter, or reach it at another year", stmt_text="insert-pairs")
 
 
 def r06f(ctx, repo):
